@@ -4,6 +4,6 @@ CONSTANTS
   CaseKinds <- OnlyDec
   Depth = 1
   RandDepth = 1
-  TyNames <- C33Names
+  TyNames <- C33AllNames
 INVARIANT Dump
 CHECK_DEADLOCK FALSE
